@@ -27,10 +27,10 @@ TRUSTED = ['pbt/fakezk.py', 'pbt/mastersim.py']
 BUDGET = {'quick': 4000, 'thorough': 128000}
 
 PROFILE = {
-    'weights': {'rmbucket': 1, 'rmbucketrestart': 2, 'restart': 3, 'reboot': 3, 'down': 3, 'up': 3, 'resize': 2,
+    'weights': {'badparent': 3, 'rmbucket': 1, 'rmbucketrestart': 2, 'restart': 3, 'reboot': 3, 'down': 3, 'up': 3, 'resize': 2,
                 'idg': 2, 'rm': 3, 'renew': 6, 'adv': 3, 'prio': 4, 'rmlast': 3, 'downseq': 4, 'freezeflip': 1, 'rmsrvrace': 3, 'priorm': 3,
                 'shrink': 2, 'cellrm': 3, 'cellev': 2, 'reparent': 2},
-    'force': ['restart', 'downseq', 'rmsrvrace', 'priorm'],
+    'force': ['restart', 'downseq', 'rmsrvrace', 'priorm', 'badparent'],
     'min_servers': 2,
 }
 
